@@ -230,6 +230,11 @@ func libDescs(ds []qDesc) nasType.QoSFlowDescs {
 // cases ----------------------------------------------------------------------------------------------
 
 func c15RulesExec(c *core.Ctx, in c15Rules) {
+	nf := 0
+	for _, r := range in.Rules {
+		nf += len(r.Filters)
+	}
+	c.Distinct(core.Hash64("rules", fmt.Sprint(in.Rules)), nf > 0)
 	fail := func(k, w string) { c.FailCase("rules|"+k, w, "rules", in) }
 	want := refRules(in.Rules)
 	orig := libRules(in.Rules)
@@ -296,6 +301,11 @@ func normDescs(ds nasType.QoSFlowDescs) nasType.QoSFlowDescs {
 }
 
 func c15DescsExec(c *core.Ctx, in c15Descs) {
+	np := 0
+	for _, d := range in.Descs {
+		np += len(d.Params)
+	}
+	c.Distinct(core.Hash64("descs", fmt.Sprint(in.Descs)), np > 0)
 	fail := func(k, w string) { c.FailCase("descs|"+k, w, "descs", in) }
 	want := refDescs(in.Descs)
 	orig := libDescs(in.Descs)
@@ -333,6 +343,7 @@ func c15DescsExec(c *core.Ctx, in c15Descs) {
 // reference verdict on unknown identifiers: does a straightforward reader meet an unknown component / parameter id?
 func c15RawExec(c *core.Ctx, in c15Raw) {
 	data := unhex(in.Hex)
+	c.Distinct(core.Hash64(in.Parser, data), len(data) >= 3)
 	var err error
 	pi := core.Try(func() {
 		switch in.Parser {
@@ -691,6 +702,6 @@ func init() {
 			"flow labels are generated below 2^19 (the serialiser rejects larger values although the field has 20 bits; the round trip presupposes a successful serialisation)",
 			"precedence and QFI octets are always present in a rule (the library's layout for every operation code)",
 		},
-		Finish: func(m *core.Merged, cov map[string]any) { cov["distinct_nontrivial"] = m.Counters["evaluations"] },
+		Finish: finishDistinct("distinct by (parser, input octets) resp. the abstract rule / description list; non-trivial = raw inputs of at least three octets, lists with at least one packet filter / parameter"),
 	})
 }
